@@ -115,6 +115,19 @@ MUTANTS = [
     ("io-registration-detaches-copy", "sopht/utils/io.py", "            self.eulerian_fields[field_name] = field", "            self.eulerian_fields[field_name] = np.asarray(field, dtype=self.real_dtype)", ["C17", "C18"]),
     ("heaviside-3d-blend-guard-inclusive", E3 + "char_func_from_level_set_3d.py", "            if abs(level_set_field[0, 0, 0]) > blend_width", "            if abs(level_set_field[0, 0, 0]) >= blend_width", ["C19", "C13"]),
     ("interaction-flow-velocity-conditional-copy", IBFI, "self.eul_grid_velocity_field = eul_grid_velocity_field.view()", "self.eul_grid_velocity_field = eul_grid_velocity_field.astype(real_t, copy=False).view()", ["C10"]),
+    ("clock-increment-rounded-to-working-precision", "sopht/simulator/flow/flow_simulators.py", "        self.time += dt", "        self.time += self.real_t(dt)", ["C01"]),
+    ("advection-3d-z-front-downwind-velocity-node", E3 + "advection_flux_3d.py", "                - (1 / 6) * field[2, 0, 0] * velocity_z[2, 0, 0]", "                - (1 / 6) * field[2, 0, 0] * velocity_z[1, 0, 0]", ["C04", "C13"]),
+    ("simulator-z-coordinates-use-y-range", "sopht/simulator/flow/flow_simulators.py", "z = np.linspace(eul_grid_shift, self.z_range - eul_grid_shift, grid_size_z)", "z = np.linspace(eul_grid_shift, self.y_range - eul_grid_shift, grid_size_z)", ["C06"]),
+    ("surface-grid-spacing-from-rest-lengths", ROD, "        return np.amax([self.cosserat_rod.lengths, self.cosserat_rod.radius * grid_angular_spacing])", "        return np.amax([self.cosserat_rod.rest_lengths, self.cosserat_rod.radius * grid_angular_spacing])", ["C10"]),
+    ("fastdiag-2d-corner-coefficient-single-precision", P2 + "FastDiagPoissonSolver2D.py", "        inv_dx2 = self.real_t(1 / self.dx / self.dx)\n        if self.bc_type", "        inv_dx2 = np.float32(1 / self.dx / self.dx)\n        if self.bc_type", ["C11"]),
+    ("vector-boundary-setter-misses-x-max-face", E3 + "elementwise_ops_3d.py", "vector_field=vector_field[:, :, :, -width:], fixed_vals=fixed_vals", "vector_field=vector_field[:, :, -width:], fixed_vals=fixed_vals", ["C14", "C13"]),
+    ("dx-from-first-grid-axis", "sopht/simulator/flow/flow_simulators.py", "        self.dx = self.real_t(self.x_range / grid_size_x)", "        self.dx = self.real_t(self.x_range / self.grid_size[0])", ["C16"]),
+    ("restart-time-guard-isclose", "sopht/utils/restart_sim.py", "    if curr_time != rod_time:", "    if not __import__(\"numpy\").isclose(curr_time, rod_time):", ["C18"]),
+    ("rigid-grid-offset-buffers-aliased", RIG, "        self.local_frame_relative_position_field = np.zeros_like(self.position_field)\n        self.global_frame_relative_position_field = np.zeros_like(self.position_field)",
+     "        self.local_frame_relative_position_field = self.global_frame_relative_position_field = np.zeros_like(self.position_field)", ["C09"]),
+    ("surface-grid-couple-rotated-with-marker-director", ROD, "            body_flow_torques[:, i] = self.cosserat_rod.director_collection[:, :, i] @ np.sum(", "            body_flow_torques[:, i] = self.grid_point_director_transpose[:, :, i].T @ np.sum(", ["C08"]),
+    ("brinkmann-vector-early-return-at-zero-penalty", E3 + "brinkmann_penalise_3d.py", "                \"\"\"Brinkmann penalises a vector field in 3D.\"\"\"\n", "                \"\"\"Brinkmann penalises a vector field in 3D.\"\"\"\n                if penalty_factor <= 0:\n                    return\n", ["C19", "C13"]),
+    ("interaction-base-call-swaps-reset-and-threads", IBFI, "            enable_eul_grid_forcing_reset,\n            num_threads,\n            start_time,\n        )", "            num_threads,\n            enable_eul_grid_forcing_reset,\n            start_time,\n        )", ["C07", "C10", "C08", "C15"]),
 ]
 
 # behaviour-preserving edits: every listed check must stay silent
@@ -161,6 +174,7 @@ CONTROLS = [
     ("interaction-flow-velocity-plain-reference", IBFI, "self.eul_grid_velocity_field = eul_grid_velocity_field.view()", "self.eul_grid_velocity_field = eul_grid_velocity_field[...]", ["C10", "C18"]),
     ("forcing-update-contiguous-copy-of-read-only-input", E3 + "update_vorticity_from_velocity_forcing_3d.py", "        vorticity_field: np.ndarray,\n        velocity_forcing_field: np.ndarray,\n        prefactor: float,\n    ) -> None:",
      "        vorticity_field: np.ndarray,\n        velocity_forcing_field: np.ndarray,\n        prefactor: float,\n    ) -> None:\n        velocity_forcing_field = np.ascontiguousarray(velocity_forcing_field)", ["C12", "C13", "C05"]),
+    ("clock-increment-spelled-out", "sopht/simulator/flow/flow_simulators.py", "        self.time += dt", "        self.time = self.time + dt", ["C01", "C18"]),
 ]
 
 
